@@ -145,16 +145,32 @@ class World:
         d = self.dispatcher
         if self.env is not None:
             out = self.env.step((j, m))
-            return [session._jsonable(out[0]), float(out[1]), bool(out[2]), bool(out[3])]
+            enc = [session._jsonable(out[0]), float(out[1]), bool(out[2]), bool(out[3])]
+            scribble(out[0])
+            return enc
         d.dispatch(self.instance.jobs[j][p], m)
         return None
 
     def reset(self):
         if self.env is not None:
             out = self.env.reset()
-            return session._jsonable(out[0])
+            enc = session._jsonable(out[0])
+            scribble(out[0])
+            return enc
         self.dispatcher.reset()
         return None
+
+
+def scribble(observation):
+    """What a consumer may do with an observation it was handed: normalise the arrays in place, add a key.
+    Later observations must not show any of it."""
+    import numpy as np
+
+    if isinstance(observation, dict):
+        for v in list(observation.values()):
+            if isinstance(v, np.ndarray) and v.size:
+                v[...] = 77
+        observation["scribbled_by_the_caller"] = 1
 
 
 def run_history(world, hist, reject=None):
